@@ -6,6 +6,7 @@ import WgslVerif.Props.C14
 import WgslVerif.Props.C15
 import WgslVerif.Props.C05
 import WgslVerif.Props.C06
+import WgslVerif.Props.C06Repr
 import WgslVerif.Props.C16
 import WgslVerif.Props.C07
 /-
@@ -163,7 +164,29 @@ def c06 (c : Ctx) (r : Run) : Verdict :=
   match c.module, r.real with
   | some m, .ok o =>
     if !typeArenaOkB m then { corr := .fail "hypothesis#typeArena: module outside TypeArenaOk", spec := .skip "hypothesis" } else
-    let spec : Status := if decide (C06Ok m o) then .ok else
+    -- representation clause (C06_repr): each field type comes from the family the selected representation prescribes
+    let reprBad := o.structs.findSome? fun s =>
+      match structMembersNamed m s.name with
+      | none => none
+      | some members =>
+        let nb := members.filter fun mem => !isBuiltinMember mem
+        (s.fields.zip nb).findSome? fun (fm : RField × Member) =>
+          match m.types[fm.2.ty]? with
+          | none => none
+          | some ty =>
+            let ok := match ty.inner, fm.1.ty, fm.1.runtime with
+              | .array base .dynamic _, .vec e, true =>
+                (match m.types[base]? with
+                 | some bt => reprOk m r.opts.repr (typeFuel m) bt e
+                 | none => false)
+              | _, t, false => reprOk m r.opts.repr (typeFuel m) ty t
+              | _, _, _ => false
+            if ok then none else some s!"struct {s.name} field {fm.1.name}: {shortRepr fm.1.ty 120}"
+    let spec : Status := if decide (C06Ok m o) then
+        (match reprBad with
+         | none => .ok
+         | some d => .fail s!"c06#representation: {d} is not of the family the selected representation prescribes")
+      else
       match o.structs.find? fun s => !decide (StructOk m s) with
       | some s =>
         let cl := match structMembersNamed m s.name with
